@@ -11,3 +11,7 @@ Lemma gen_counts_are_model A l2 n1 :
 Proof. repeat split; reflexivity. Qed.
 Lemma gen_skeleton : gen_cross_kernels_skeleton = true.
 Proof. reflexivity. Qed.
+(* the two n.s.i. kernels and their callers' A+ argument, statement by
+   statement (translate/pyx_cross.py fails closed on any other text) *)
+Lemma gen_nsi_kernels : gen_nsi_cross_kernels_are_model = true.
+Proof. reflexivity. Qed.
